@@ -27,6 +27,10 @@ theorem resolve_split5 (brk cont L : Nat) (cc ct ce : List Instr) (i j : Instr) 
   rw [resolve_append, resolve_append, resolve_split3 _ _ _ _ _ _ hcc hi, resolve_noMarks _ _ [j] _ (noMarks_single hj)]
   rw [show L + (cc ++ [i] ++ ct ++ [j]).length = L + cc.length + 1 + ct.length + 1 by lenomega]
 
+theorem Exec.trans_nil {tbl f tr1 f' e} (h1 : Exec tbl f tr1 (.at f')) (h2 : Exec tbl f' [] e) :
+    Exec tbl f tr1 e := by
+  simpa using h1.trans h2
+
 /-! ### monad inversion with states and traces -/
 
 theorem Res.eta_ok {α} {r : Res α} {a : α} (h : r.out = .ok a) : r = ⟨.ok a, r.st, r.tr⟩ := by
@@ -273,7 +277,7 @@ theorem stmt_step (okE : Expr → Bool) (hnmE : ∀ e sc c, okE e = true → com
           (.at ⟨code, pre.length + ce.length + 1 + 1, stk, locals.set cs.next (box ty v)⟩) :=
         Exec.one (by simp only [VM.step, hi2])
       refine ⟨locals.set cs.next (box ty v), ?_, [(x, cs.next)], ?_, fun _ => rfl⟩
-      · have := (r1.trans e2).trans e3
+      · have := (r1.trans_nil e2).trans e3
         simpa [Nat.add_assoc] using this
       · exact .cons (hrel.set_ge (Nat.le_refl _) _) (by simp [Locals.get_set]) (Nat.lt_succ_self _)
   | expr e =>
@@ -298,7 +302,7 @@ theorem stmt_step (okE : Expr → Bool) (hnmE : ∀ e sc c, okE e = true → com
       have e2 : Exec tbl ⟨code, pre.length + ce.length, v :: stk, locals⟩ [] (.at ⟨code, pre.length + ce.length + 1, stk, locals⟩) :=
         Exec.one (by simp only [VM.step, hi1])
       refine ⟨locals, ?_, [], by simpa using hrel, fun _ => by simp⟩
-      have := r1.trans e2
+      have := r1.trans_nil e2
       simpa [Nat.add_assoc] using this
   | ret oe =>
     cases oe with
@@ -334,7 +338,7 @@ theorem stmt_step (okE : Expr → Bool) (hnmE : ∀ e sc c, okE e = true → com
           Exec.one (by simp only [VM.step, hi1])
         have e3 : Exec tbl ⟨code, pre.length + ce.length + 1, box retTy v :: stk, locals⟩ [] (.ret (box retTy v)) :=
           Exec.ret (by simp only [VM.step, hi2])
-        have := (r1.trans e2).trans e3
+        have := (r1.trans_nil e2).trans e3
         simpa [Sim] using this
   | break_ =>
     simp only [compileStmt, Option.some.injEq, Prod.mk.injEq] at hc
@@ -403,7 +407,7 @@ theorem stmt_step (okE : Expr → Bool) (hnmE : ∀ e sc c, okE e = true → com
                 (.at ⟨code, pre.length + ce.length + 1 + 1, stk, locals.set i (box ty v)⟩) :=
               Exec.one (by simp only [VM.step, hi2])
             refine ⟨locals.set i (box ty v), ?_, [], by simpa using hrel', fun _ => by simp⟩
-            have := (r1.trans e2).trans e3
+            have := (r1.trans_nil e2).trans e3
             simpa [Nat.add_assoc] using this
     | _ => simp [compileStmt] at hc
   | swap l lty r rty => simp [compileStmt] at hc
@@ -419,21 +423,19 @@ theorem stmt_step (okE : Expr → Bool) (hnmE : ∀ e sc c, okE e = true → com
         cases oe with
         | none =>
           simp only [okS, Bool.and_eq_true, and_true] at hnc
-          have hnmc := compileExpr_noMarks _ _ _ hnc.1 hcc
+          have hnmc := hnmE _ _ _ hnc.1 hcc
           simp only [compileStmt, hcc, hct, Option.bind_eq_bind, Option.bind_some, Option.some.injEq, Prod.mk.injEq] at hc
           obtain ⟨hc1, hc2⟩ := hc; subst hc1 hc2
           simp only [exec] at h
           obtain ⟨vc, s1, tr1, tr2, hev, hk, htr⟩ := bind_eq_ok h
-          obtain ⟨hv, hs1, ht1⟩ := eval_eq_pure hnc.1 hev
-          subst hs1 ht1
-          have htr' : tr2 = tr := by simpa using htr.symm
-          subst htr'
+          subst htr
           have hcode2 : code = (pre ++ cc ++ [Instr.jumpIfFalse ct.length]) ++
               resolve brk cont (pre.length + cc.length + 1) ct ++ post := by
             rw [hcode, resolve_split3 _ _ _ _ _ _ hnmc rfl]; simp
-          have r1 := sim_expr_ok p tbl n c0 s vc hnc.1 hv cs.sc cc hcc locals hag.agree code pre
+          obtain ⟨hs1, r1⟩ := hE c0 s vc s1 tr1 hev hnc.1 cs.sc cc hcc locals hag code pre
             ([Instr.jumpIfFalse ct.length] ++ resolve brk cont (pre.length + cc.length + 1) ct ++ post) stk
             (by simp [hcode2])
+          subst hs1
           have hi : code[pre.length + cc.length]? = some (.jumpIfFalse ct.length) := by locate2 hcode2
           have hlen : pre.length + (cc ++ [Instr.jumpIfFalse ct.length] ++ ct).length = pre.length + cc.length + 1 + ct.length := by
             lenomega
@@ -447,7 +449,7 @@ theorem stmt_step (okE : Expr → Bool) (hnmE : ∀ e sc c, okE e = true → com
                 Exec.one (by simp only [VM.step, hi]; rfl)
               have sim := hB retTy t s flow s' tr2 hk hnc.2 cs ct cs1 hct locals hrel code _ post stk brk cont
                 (pre.length + cc.length + 1) (by lenomega) hcode2 (by omega) (by omega)
-              refine (Sim.after ((Exec.of_reach r1).trans e2) sim).weaken ?_
+              refine (Sim.after (r1.trans_nil e2) sim).weaken ?_
               intro l hr
               exact ⟨[], by simpa using hr.mono hle1, fun _ => by simp⟩
             | false =>
@@ -455,7 +457,7 @@ theorem stmt_step (okE : Expr → Bool) (hnmE : ∀ e sc c, okE e = true → com
               have e2 : Exec tbl ⟨code, pre.length + cc.length, .bool false :: stk, locals⟩ []
                   (.at ⟨code, pre.length + cc.length + 1 + ct.length, stk, locals⟩) :=
                 Exec.one (by simp only [VM.step, hi]; rfl)
-              exact ⟨locals, (Exec.of_reach r1).trans e2, [], by simpa using hrel.mono hle1, fun _ => by simp⟩
+              exact ⟨locals, r1.trans e2, [], by simpa using hrel.mono hle1, fun _ => by simp⟩
           | _ =>
             have : (⟨.internalErr .typeMismatch, s, []⟩ : Res Flow) = ⟨.ok flow, s', tr2⟩ := hk
             simp at this
@@ -466,15 +468,12 @@ theorem stmt_step (okE : Expr → Bool) (hnmE : ∀ e sc c, okE e = true → com
             obtain ⟨ce, cs2⟩ := r2
             have hle2 := compileBlock_next_le retTy eb ⟨cs.sc, cs1.next⟩ ce cs2 hce
             simp only [okS, Bool.and_eq_true] at hnc
-            have hnmc := compileExpr_noMarks _ _ _ hnc.1.1 hcc
+            have hnmc := hnmE _ _ _ hnc.1.1 hcc
             simp only [compileStmt, hcc, hct, hce, Option.bind_eq_bind, Option.bind_some, Option.some.injEq, Prod.mk.injEq] at hc
             obtain ⟨hc1, hc2⟩ := hc; subst hc1 hc2
             simp only [exec] at h
             obtain ⟨vc, s1, tr1, tr2, hev, hk, htr⟩ := bind_eq_ok h
-            obtain ⟨hv, hs1, ht1⟩ := eval_eq_pure hnc.1.1 hev
-            subst hs1 ht1
-            have htr' : tr2 = tr := by simpa using htr.symm
-            subst htr'
+            subst htr
             have hcode2 : code = (pre ++ cc ++ [Instr.jumpIfFalse (ct.length + 1)]) ++
                 resolve brk cont (pre.length + cc.length + 1) ct ++
                 ([Instr.jump ce.length] ++ resolve brk cont (pre.length + cc.length + 1 + ct.length + 1) ce ++ post) := by
@@ -483,10 +482,11 @@ theorem stmt_step (okE : Expr → Bool) (hnmE : ∀ e sc c, okE e = true → com
                 resolve brk cont (pre.length + cc.length + 1) ct ++ [Instr.jump ce.length]) ++
                 resolve brk cont (pre.length + cc.length + 1 + ct.length + 1) ce ++ post := by
               rw [hcode2]; simp
-            have r1 := sim_expr_ok p tbl n c0 s vc hnc.1.1 hv cs.sc cc hcc locals hag.agree code pre
+            obtain ⟨hs1, r1⟩ := hE c0 s vc s1 tr1 hev hnc.1.1 cs.sc cc hcc locals hag code pre
               ([Instr.jumpIfFalse (ct.length + 1)] ++ resolve brk cont (pre.length + cc.length + 1) ct ++
                 ([Instr.jump ce.length] ++ resolve brk cont (pre.length + cc.length + 1 + ct.length + 1) ce ++ post)) stk
               (by simp [hcode2])
+            subst hs1
             have hi : code[pre.length + cc.length]? = some (.jumpIfFalse (ct.length + 1)) := by locate2 hcode2
             have hj : code[pre.length + cc.length + 1 + ct.length]? = some (.jump ce.length) := by locate2 hcode2
             have hlen : pre.length + (cc ++ [Instr.jumpIfFalse (ct.length + 1)] ++ ct ++ [Instr.jump ce.length] ++ ce).length =
@@ -504,7 +504,7 @@ theorem stmt_step (okE : Expr → Bool) (hnmE : ∀ e sc c, okE e = true → com
                 have ej : ∀ l', Exec tbl ⟨code, pre.length + cc.length + 1 + ct.length, stk, l'⟩ []
                     (.at ⟨code, pre.length + cc.length + 1 + ct.length + 1 + ce.length, stk, l'⟩) :=
                   fun l' => Exec.one (by simp only [VM.step, hj])
-                refine ((Sim.after ((Exec.of_reach r1).trans e2) sim).then ej).weaken ?_
+                refine ((Sim.after (r1.trans_nil e2) sim).then ej).weaken ?_
                 intro l hr
                 exact ⟨[], by simpa using hr.mono (Nat.le_trans hle1 hle2), fun _ => by simp⟩
               | false =>
@@ -514,7 +514,7 @@ theorem stmt_step (okE : Expr → Bool) (hnmE : ∀ e sc c, okE e = true → com
                 have sim := hB retTy eb s flow s' tr2 hk hnc.2 ⟨cs.sc, cs1.next⟩ ce cs2 hce locals (hrel.mono hle1) code _ post stk
                   brk cont (pre.length + cc.length + 1 + ct.length + 1) (by lenomega) hcode3 (by omega) (by omega)
                 rw [show pre.length + cc.length + 1 + (ct.length + 1) = pre.length + cc.length + 1 + ct.length + 1 by omega] at e2
-                refine (Sim.after ((Exec.of_reach r1).trans e2) sim).weaken ?_
+                refine (Sim.after (r1.trans_nil e2) sim).weaken ?_
                 intro l hr
                 exact ⟨[], by simpa using hr.mono hle2, fun _ => by simp⟩
             | _ =>
@@ -531,7 +531,7 @@ theorem stmt_step (okE : Expr → Bool) (hnmE : ∀ e sc c, okE e = true → com
       | some r1 =>
         obtain ⟨cb, cs1⟩ := r1
         have hle1 := compileBlock_next_le retTy body cs cb cs1 hcb
-        have hnmc := compileExpr_noMarks _ _ _ hnc.1 hcc
+        have hnmc := hnmE _ _ _ hnc.1 hcc
         have hc0 := hc
         simp only [compileStmt, hcc, hcb, Option.bind_eq_bind, Option.bind_some, Option.some.injEq, Prod.mk.injEq] at hc
         obtain ⟨hc1, hc2⟩ := hc; subst hc1 hc2
@@ -551,15 +551,13 @@ theorem stmt_step (okE : Expr → Bool) (hnmE : ∀ e sc c, okE e = true → com
           rw [hp]; lenomega
         simp only [exec] at h
         obtain ⟨vc, s1, tr1, tr2, hev, hk, htr⟩ := bind_eq_ok h
-        obtain ⟨hv, hs1, ht1⟩ := eval_eq_pure hnc.1 hev
-        subst hs1 ht1
-        have htr' : tr2 = tr := by simpa using htr.symm
-        subst htr'
-        have r1 := sim_expr_ok p tbl n c0 s vc hnc.1 hv cs.sc cc hcc locals hag.agree code pre
+        subst htr
+        obtain ⟨hs1, r1⟩ := hE c0 s vc s1 tr1 hev hnc.1 cs.sc cc hcc locals hag code pre
           ([Instr.jumpIfFalse (cb.length + 1)] ++
             resolve (pre.length + cc.length + 1 + cb.length + 1) pre.length (pre.length + cc.length + 1) cb ++
             ([Instr.jumpBack (cc.length + 1 + cb.length)] ++ post)) stk
           (by simp [hcode2])
+        subst hs1
         have hi : code[pre.length + cc.length]? = some (.jumpIfFalse (cb.length + 1)) := by locate2 hcode2
         have hj : code[pre.length + cc.length + 1 + cb.length]? = some (.jumpBack (cc.length + 1 + cb.length)) := by
           locate2 hcode2
@@ -573,12 +571,12 @@ theorem stmt_step (okE : Expr → Bool) (hnmE : ∀ e sc c, okE e = true → com
               Exec.one (by simp only [VM.step, hi]; rfl)
             rw [hlen]
             rw [show pre.length + cc.length + 1 + (cb.length + 1) = pre.length + cc.length + 1 + cb.length + 1 by omega] at e2
-            exact ⟨locals, (Exec.of_reach r1).trans e2, [], by simpa using hrel.mono hle1, fun _ => by simp⟩
+            exact ⟨locals, r1.trans e2, [], by simpa using hrel.mono hle1, fun _ => by simp⟩
           | true =>
             have e2 : Exec tbl ⟨code, pre.length + cc.length, .bool true :: stk, locals⟩ []
                 (.at ⟨code, pre.length + cc.length + 1, stk, locals⟩) :=
               Exec.one (by simp only [VM.step, hi]; rfl)
-            have e12 := (Exec.of_reach r1).trans e2
+            have e12 := r1.trans_nil e2
             obtain ⟨fb, sb, trb, trr, hblk, hk2, htr2⟩ := bind_eq_ok hk
             have simb := hB retTy body s fb sb trb hblk hnc.2 cs cb cs1 hcb locals hrel code _ _ stk
               (pre.length + cc.length + 1 + cb.length + 1) pre.length
@@ -611,7 +609,7 @@ theorem stmt_step (okE : Expr → Bool) (hnmE : ∀ e sc c, okE e = true → com
               exact ⟨l1, by simpa using e12.trans eb1, [], by simpa using hr1.mono hle1, fun _ => by simp⟩
             | ret v =>
               obtain ⟨hf, hs, ht⟩ := pure_inv hk2; subst hf hs ht
-              have : Exec tbl ⟨code, pre.length, stk, locals⟩ ([] ++ trb) (.ret v) := e12.trans simb
+              have : Exec tbl ⟨code, pre.length, stk, locals⟩ (tr1 ++ trb) (.ret v) := e12.trans simb
               simpa [Sim] using this
         | _ =>
           have : (⟨.internalErr .typeMismatch, s, []⟩ : Res Flow) = ⟨.ok flow, s', tr2⟩ := hk
